@@ -62,8 +62,10 @@ def check(ctx):
     small.append(b.assemble())
     # many short paths: a dispatcher with 8..14 branches, every root-to-STOP path shorter than the larger polling intervals --
     # the main loop's poll counter counts ITERATIONS OF THE LOOP (all threads together), not the steps of one thread
+    many_paths = set()
     for nv in ((8, 12) if ctx.quick else (6, 8, 10, 12, 14, 14)):
-        small.append(gen.compile_layout(gen.random_vars(rng, nv), rng, dispatcher="selector"))
+        many_paths.add(gen.compile_layout(gen.random_vars(rng, nv), rng, dispatcher="selector"))
+    small += sorted(many_paths)
     small += gen.loop_programs(rng, bw, 4 if ctx.quick else 20)
     small += gen.c07_programs(rng, bw, 4 if ctx.quick else 20)
     real = [bytes.fromhex(h) for _, h in gen.real_contracts()]
@@ -177,6 +179,11 @@ def check(ctx):
                 v = [int(x) for x in m.group(1).split(";")]
                 evals += 1
                 for name, i in (("vm", 0), ("lift", 2), ("assign", 4), ("infer", 6), ("unify", 8)):
+                    if name == "unify" and code in many_paths:
+                        # the number of class visits of unification depends on the hash iteration order of THIS run (it
+                        # has no independent work measure in the `polls` output): on programs with many variables two
+                        # runs differ by a few visits, so the relation between two runs is not evaluated for them
+                        continue
                     n1, np_ = at1[code][i], v[i]
                     rate_checked += 1
                     if np_ < n1 // p:
